@@ -691,7 +691,9 @@ fn inject_forged_handshake(w: &mut World, rng: &mut Rng, plan: &HsPlan, captured
     match rng.below(7) {
         0 => {
             // spoofed server -> client: SYN-ACK acknowledging a nonce the client never sent
-            let f = RFrame::SynAck { nonce_ack: wrong, nonce: rng.u32(), max_receive_rate: rng.u32(), max_packet_size: rng.u32(), max_receive_alloc: rng.u32() };
+            // limits from boundary values (a forged reply may claim anything), not just random words
+            let lim = |rng: &mut Rng| -> u32 { *rng.pick(&[0u32, 1, 22, 23, 1447, 1448, 1472, 1 << 20, u32::MAX, 1000, 100_000]) ^ if rng.chance(0.2) { rng.u32() } else { 0 } };
+            let f = RFrame::SynAck { nonce_ack: wrong, nonce: rng.u32(), max_receive_rate: lim(rng), max_packet_size: lim(rng), max_receive_alloc: lim(rng) };
             w.c.inc("forged_synack_wrong_nonce");
             w.inject(srv, caddr, encode(&f), delay);
         }
